@@ -73,9 +73,14 @@ def gen_dm(rng, nmin=1, mmin=1):
     dts = [rng.choice([0, 1]) for _ in range(m)]   # 0 int64, 1 float64
     mtx = [[(float(rng.randint(-9, 40)) if dts[j] == 0 else rng.randint(-40, 160) / 8.0) for j in range(m)]
            for _ in range(n)]
+    w = gen.weights(rng, m, rng.choice(["dyadic", "int"]))
+    if rng.random() < 0.2:
+        # boundary weights: 0 is a legal weight and must survive every derivation like any other
+        for j in (range(m) if rng.random() < 0.3 else rng.sample(range(m), rng.randint(1, m))):
+            w[j] = 0.0
     return {
         "matrix": mtx, "dtypes": dts, "objectives": gen.objectives(rng, m),
-        "weights": gen.weights(rng, m, rng.choice(["dyadic", "int"])),
+        "weights": w,
         "alternatives": gen.labels(rng, n, gen.LABEL_POOL_A, "A"),
         "criteria": gen.labels(rng, m, gen.LABEL_POOL_C, "C"),
     }
